@@ -290,7 +290,12 @@ impl Project
 	{
 		let _ = std::fs::remove_dir_all(dir);
 		std::fs::create_dir_all(dir).unwrap();
-		for (n, d) in &self.files {std::fs::write(dir.join(n), d).unwrap();}
+		for (n, d) in &self.files
+		{
+			let p = dir.join(n);
+			if let Some(parent) = p.parent() {std::fs::create_dir_all(parent).unwrap();}
+			std::fs::write(p, d).unwrap();
+		}
 	}
 }
 
@@ -550,6 +555,13 @@ fn pass2(stmts: &[St], cursor: &mut Option<u32>, env: &HashMap<String, i64>, ima
 
 fn render_stmts(stmts: &[St], rng: &mut Rng, files: &mut Vec<(String, Vec<u8>)>) -> String
 {
+	render_stmts_in(stmts, rng, files, "")
+}
+
+/// `dir` = directory (with trailing '/', or empty) of the file being rendered, relative to the project root:
+/// `.include` / `.dfile` paths in the source are relative to the file that mentions them
+fn render_stmts_in(stmts: &[St], rng: &mut Rng, files: &mut Vec<(String, Vec<u8>)>, dir: &str) -> String
+{
 	let mut out = String::new();
 	for st in stmts
 	{
@@ -566,7 +578,8 @@ fn render_stmts(stmts: &[St], rng: &mut Rng, files: &mut Vec<(String, Vec<u8>)>)
 			St::Dhex(b) => format!(".dhex \"{}\";", b.iter().map(|x| if rng.chance(1, 3) {format!("{x:02X} ")} else {format!("{x:02x}")}).collect::<String>()),
 			St::Dfile(n, b) =>
 			{
-				if !files.iter().any(|(f, _)| f == n) {files.push((n.clone(), b.clone()));}
+				let full = format!("{dir}{n}");
+				if !files.iter().any(|(f, _)| *f == full) {files.push((full, b.clone()));}
 				format!(".dfile \"{n}\";")
 			},
 			St::Ins(i) => format!("{};", i.render(rng)),
@@ -575,8 +588,9 @@ fn render_stmts(stmts: &[St], rng: &mut Rng, files: &mut Vec<(String, Vec<u8>)>)
 			St::Export(n) => format!(".export {n};"),
 			St::Include(n, body) =>
 			{
-				let text = render_stmts(body, rng, files);
-				files.push((n.clone(), text.into_bytes()));
+				let sub = match n.rfind('/') {Some(i) => format!("{dir}{}", &n[..=i]), None => dir.to_owned()};
+				let text = render_stmts_in(body, rng, files, &sub);
+				files.push((format!("{dir}{n}"), text.into_bytes()));
 				format!(".include \"{n}\";")
 			},
 			St::Raw(t) => t.clone(),
@@ -641,7 +655,8 @@ fn gen_body(g: &mut Gen, n: usize, depth: usize, shape: &mut Vec<&'static str>, 
 				g.next_file += 1;
 				{
 					let len = if g.rng.chance(1, 12) {*g.rng.pick(&[1023u64, 1024, 1025, 2049])} else {g.rng.below(40)};
-					St::Dfile(format!("blob{}.bin", g.next_file), (0..len).map(|_| g.rng.next() as u8).collect())
+					let sub = *g.rng.pick(&["", "", "", "bin/", "a.d/b/"]);
+					St::Dfile(format!("{sub}blob{}.bin", g.next_file), (0..len).map(|_| g.rng.next() as u8).collect())
 				}
 			},
 			8 => {shape.push("align"); St::Align(*g.rng.pick(&[1u32, 2, 4, 8, 16, 3, 256]))},
@@ -672,7 +687,7 @@ fn gen_body(g: &mut Gen, n: usize, depth: usize, shape: &mut Vec<&'static str>, 
 			{
 				shape.push("include");
 				g.next_file += 1;
-				let fname = format!("inc{}.asm", g.next_file);
+				let fname = format!("{}inc{}.asm", *g.rng.pick(&["", "", "sub/", "x/y/"]), g.next_file);
 				// the child: own scope; exports some labels with .global; imports some parent constants
 				let saved_known = std::mem::take(&mut g.known);
 				let mut child_labels = Vec::new();
